@@ -3,6 +3,7 @@ package main
 import (
 	"encoding/json"
 	"fmt"
+	"github.com/bilibili/gengine/engine"
 	"math"
 	"math/big"
 	"os"
@@ -1365,9 +1366,33 @@ func init() {
 		Kind:        "cases",
 		Rule: "one program per (access path x target kind x source x boundary value x {read, =, +=}): paths S.F, S.In.F, S.Nv.F, value-injected SV.F, pointer scalar P, map[string]/map[int]/map[int64] elements with literal / missing / local-variable / injected-variable keys, slice and array elements with literal / variable indexes, every container injected by pointer and by value; 14 target kinds; sources integer/real/string/bool literal, locals, injected values of all 12 numeric kinds; values = edges of target and source kind (0, 1, -1, min, max, min-1, max+1, 2^24(+1), 2^53(+1), max float) as far as the source can hold them; " +
 			"plus calls of functions / methods (pointer and value receivers) / three-level methods with 1..3 parameters over {int,int8,uint16,uint64,float32,float64,string,bool} x argument sources {literal, local, injected value of every numeric kind, nested call, arithmetic expression} x 0/1/2 results; plus name-shadowing programs. " +
-			"Judged (extra.cases): within-class stores everywhere, cross-class stores into struct fields and pointer scalars, representable values only, reads incl. missing keys, calls whose arguments are representable in the parameter types; host objects are compared location by location before/after. extra.unjudged: programs outside the statement (only panic-escape and collateral changes are recorded)",
-		Assume:     []string{"64-bit int/uint on the host", "injected functions terminate"},
-		Run:        c03Run,
+			"Judged (extra.cases): within-class stores everywhere, cross-class stores into struct fields and pointer scalars, representable values only, reads incl. missing keys, calls whose arguments are representable in the parameter types; host objects are compared location by location before/after. extra.unjudged: programs outside the statement (only panic-escape and collateral changes are recorded). Companion under concurrency: the same call sites evaluated by two overlapping pool requests (the compiled rule tree is shared by all instances), every schedule with <=2 (3) deviations: every injected function must receive its own request's arguments",
+		Assume: []string{"64-bit int/uint on the host", "injected functions terminate"},
+		Run: func(c *hx.Ctx) {
+			c03Run(c)
+			c03Concurrent(c)
+		},
 		ReplayCase: c03Replay,
+		Rebuild:    rebuildPool,
 	})
+}
+
+// c03Concurrent: "calling an injected function passes the arguments positionally" must also hold
+// when the same call site is evaluated by two requests at once - all engine instances of a pool share
+// one compiled rule tree. The pool request scenario of C06 is explored with the argument oracle only.
+func c03Concurrent(c *hx.Ctx) {
+	with, without := reqSpec{Mode: modeOK, Other: true}, reqSpec{Mode: modeOK}
+	i := 0
+	for _, meth := range []string{"Execute", "ExecuteConcurrent", "ExecuteRulesWithSpecifiedEM"} {
+		for _, clients := range [][][]reqSpec{{{with}, {without}}, {{with, without}, {without, with}}} {
+			cfg := poolCfg{Prop: "C03", Min: 1, Max: 2, EM: engine.SortModel, Method: meth, Clients: clients}
+			b := 2
+			if c.Thorough() {
+				b = 3
+			}
+			ec := hx.ExploreCfg{Bound: b, Delay: true, Prune: true, Deadline: c.Deadline}
+			exploreShared(c, "C03", i, func() *hx.Scenario { return poolScenario(cfg) }, ec)
+			i++
+		}
+	}
 }
